@@ -1027,6 +1027,12 @@ class Controller:
                 if comp not in self.comp_staged_in:
                     return False
 
+                # VV: A Subject that has been asked to finish (e.g. it was shutdown before it ever ran) is about to
+                # reach its final state. Wait till the controller observes that state before deciding what to do with
+                # the Observer; otherwise the Observer may be submitted even though its Subject is shutdown/failed.
+                if comp.finishCalled:
+                    return False
+
             return True
 
     def _schedule(self, migrated_components):
